@@ -31,5 +31,5 @@ Proof. exact same_on_every_thread. Qed.
 
 Example C17_example :
   cfg_obs (mkSC 10 5000 2 1000) = [1; 10; 5000; 2; 1000; 10; 5000; 2; 1000; 10; 5000; 2; 1000; 0; 2; 1000; 10; 5000; 0; 2; 1000; 10; 5000]%Z
-  /\ cfg_obs (mkSC 20 10000 3 1000) = [0%Z].
+  /\ cfg_obs (mkSC 20 10000 3 1000) = [0; 20; 10000; 2; 1000]%Z.
 Proof. split; vm_compute; reflexivity. Qed.
